@@ -19,12 +19,15 @@ Definition buf_check (start len src_len : lir) : lir :=
 Lemma W_pos : W = 2 ^ 256. Proof. reflexivity. Qed.
 Lemma HALF_pos : HALF = 2 ^ 255. Proof. reflexivity. Qed.
 
-Ltac cmp :=
-  repeat match goal with
-         | |- context [?a <? ?b] => destruct (Z.ltb_spec a b)
-         | |- context [?a >? ?b] => rewrite (Z.gtb_ltb a b)
-         | |- context [?a <=? ?b] => destruct (Z.leb_spec a b)
-         end.
+Ltac no_if t := lazymatch t with context [if _ then _ else _] => fail | _ => idtac end.
+Ltac cmp1 :=
+  match goal with
+  | |- context [?a <? ?b] => no_if a; no_if b; destruct (Z.ltb_spec a b)
+  | |- context [?a <=? ?b] => no_if a; no_if b; destruct (Z.leb_spec a b)
+  | |- context [?a =? ?b] => is_var a; destruct (Z.eqb_spec a b)
+  end.
+(* innermost comparisons first, so that no hypothesis ever contains an [if] *)
+Ltac cmp := repeat (first [rewrite Z.gtb_ltb | cmp1]; cbv beta iota).
 
 (* the index the source program means: two's complement for signed index types *)
 Definition idx_value (signed : bool) (x : Z) : Z := if signed then to_signed x else x.
@@ -56,4 +59,160 @@ Proof.
     - rewrite <- (Z.mod_small (s + l - W) W) by lia. replace (s + l - W) with (s + l + (-1) * W) by lia.
       rewrite Z.mod_add by lia. reflexivity. }
   rewrite E. unfold w_iszero, w_or, w_lt, w_gt, b2z. cmp; cbn; try reflexivity; lia.
+Qed.
+
+(* ================= round 2: remaining legacy templates ================= *)
+(* append_dyn_array: assert (lt old_darray_len count) *)
+Definition append_check (count : Z) : lir := LAssert (L2 OLt (LVar "old_darray_len"%string) (LInt count)).
+(* pop_dyn_array: new_len = sub (clamp gt len 0) 1 *)
+Definition pop_newlen (len : lir) : lir :=
+  L2 OSub (LWith "clamp_arg"%string len
+             (LSeq (LAssert (L2 OGt (LVar "clamp_arg"%string) (LInt 0))) (LVar "clamp_arg"%string))) (LInt 1).
+(* Extract32: clamp2(0, ix, sub(len, 32), signed=True) *)
+Definition extract32_check (ix len : lir) : lir :=
+  LSeq (LAssert (L2 OAnd (L2 OSge ix (LInt 0)) (L2 OSle ix (L2 OSub len (LInt 32))))) ix.
+
+Theorem append_within_bound_l : forall e n count,
+  lookup e "old_darray_len"%string = Some n -> 0 <= n < W -> 0 <= count < W ->
+  leval e (append_check count) = if n <? count then Unit else Revert.
+Proof.
+  intros e n count Hn Rn Rc. pose proof W_pos. unfold append_check. cbn [leval ev2]. rewrite Hn.
+  unfold wrap. rewrite Z.mod_small by lia. unfold w_lt, b2z. cmp; cbn; try reflexivity; lia.
+Qed.
+
+Theorem pop_nonempty_l : forall e n len,
+  leval e len = Val n -> 0 <= n < W ->
+  leval e (pop_newlen len) = if 0 <? n then Val (n - 1) else Revert.
+Proof.
+  intros e n len Hl Rn. pose proof W_pos. unfold pop_newlen.
+  cbn [leval ev2 lookup String.eqb Ascii.eqb Bool.eqb]. rewrite Hl.
+  cbn [leval ev2 lookup String.eqb Ascii.eqb Bool.eqb].
+  change (wrap 0) with 0. change (wrap 1) with 1. unfold w_gt, b2z. rewrite Z.gtb_ltb.
+  destruct (Z.ltb_spec 0 n); cbn.
+  - unfold w_sub, wrap. rewrite Z.mod_small by lia. reflexivity.
+  - reflexivity.
+Qed.
+
+Theorem extract32_bounds_iff_l : forall e x n ix len,
+  leval e ix = Val x -> leval e len = Val n -> 0 <= x < W -> 0 <= n < HALF ->
+  leval e (extract32_check ix len) = if (x <? HALF) && (x + 32 <=? n) then Val x else Revert.
+Proof.
+  intros e x n ix len Hx Hn Rx Rn. pose proof W_pos. pose proof HALF_pos. unfold extract32_check.
+  cbn [leval ev2]. rewrite Hn, Hx. change (wrap 32) with 32. change (wrap 0) with 0.
+  unfold w_iszero, w_and, w_slt, w_sgt, b2z. replace (to_signed 0) with 0 by reflexivity.
+  destruct (Z.leb_spec 32 n) as [L|L].
+  - assert (S : w_sub n 32 = n - 32) by (unfold w_sub; apply Z.mod_small; lia).
+    rewrite S. unfold to_signed. repeat rewrite Z.gtb_ltb. cmp; cbn; try reflexivity; lia.
+  - assert (S : w_sub n 32 = n - 32 + W).
+    { unfold w_sub. rewrite <- (Z.mod_small (n - 32 + W) W) by lia. replace (n - 32 + W) with (n - 32 + 1 * W) by lia.
+      rewrite Z.mod_add by lia. reflexivity. }
+    rewrite S. unfold to_signed. repeat rewrite Z.gtb_ltb. cmp; cbn; try reflexivity; lia.
+Qed.
+
+(* ================= round 2: venom templates (C03/VSL.v) ================= *)
+From Coq Require Import Ascii.
+From Verif Require Import C03.VSL.
+Local Open Scope string_scope.
+
+Definition vidx_check (signed : bool) (bound : vop) : list vinstr :=
+  if signed then
+    [V2 "t0" OSlt (VLit 0) (VVar "p1"); V2 "t1" OLt bound (VVar "p1"); V1 "t2" OIszero (VVar "t1");
+     V2 "t3" OOr (VVar "t2") (VVar "t0"); V1 "t4" OIszero (VVar "t3"); VAssert (VVar "t4")]
+  else
+    [V2 "t0" OLt bound (VVar "p1"); V1 "t1" OIszero (VVar "t0"); V2 "t2" OOr (VVar "t1") (VLit 0);
+     V1 "t3" OIszero (VVar "t2"); VAssert (VVar "t3")].
+
+Definition vslice_check : list vinstr :=
+  [V2 "t0" OAdd (VVar "p1") (VVar "p0"); V2 "t1" OLt (VVar "p0") (VVar "t0"); V2 "t2" OGt (VVar "p2") (VVar "t0");
+   V2 "t3" OOr (VVar "t2") (VVar "t1"); V1 "t4" OIszero (VVar "t3"); VAssert (VVar "t4")].
+
+Definition vextract32_check : list vinstr :=
+  [V2 "t0" OAdd (VLit 32) (VVar "p0"); V2 "t1" OAdd (VLit 32) (VVar "p1"); V2 "t2" OLt (VVar "p1") (VVar "t1");
+   V2 "t3" OGt (VVar "ld0") (VVar "t1"); V2 "t4" OOr (VVar "t3") (VVar "t2"); V1 "t5" OIszero (VVar "t4"); VAssert (VVar "t5")].
+
+Definition vpop_check : list vinstr :=
+  [V1 "t0" OIszero (VVar "ld0"); V1 "t1" OIszero (VVar "t0"); VAssert (VVar "t1")].
+Definition vappend_check (count : Z) : list vinstr :=
+  [V2 "t0" OLt (VLit count) (VVar "ld0"); VAssert (VVar "t0")].
+
+Local Close Scope string_scope.
+
+(* Some true = all asserts passed, Some false = reverted, None = ill-formed *)
+Definition vpass (r : vres) : option bool :=
+  match r with VOk _ => Some true | VRevert => Some false | VStuck => None end.
+
+(* the bound operand is a literal or a variable that is not one of the template's temporaries *)
+Definition not_t (s : string) : bool :=
+  match s with String c _ => negb (Ascii.eqb "t"%char c) | EmptyString => true end.
+Definition vop_fresh (a : vop) : bool := match a with VLit _ => true | VVar s => not_t s end.
+
+Lemma t_neq : forall rest s, not_t s = true -> String.eqb (String "t"%char rest) s = false.
+Proof.
+  intros rest s H. destruct s as [|c s']; [reflexivity|]. cbn [String.eqb]. cbn [not_t] in H.
+  destruct (Ascii.eqb "t"%char c); [discriminate|reflexivity].
+Qed.
+
+Lemma vval_skip : forall rest v e a, vop_fresh a = true -> vval ((String "t"%char rest, v) :: e) a = vval e a.
+Proof. intros rest v e [n|s] H; cbn [vval lookup]; [reflexivity|]. rewrite (t_neq rest s H). reflexivity. Qed.
+
+Ltac vstep1 :=
+  cbn [vsl vstep vval lookup String.eqb Ascii.eqb Bool.eqb];
+  repeat rewrite vval_skip by assumption.
+
+Theorem venom_index_check_iff_l : forall signed e x b bound,
+  lookup e "p1" = Some x -> 0 <= x < W -> vop_fresh bound = true -> vval e bound = Some b -> 0 <= b < W ->
+  vpass (vsl e (vidx_check signed bound)) = Some ((0 <=? idx_value signed x) && (idx_value signed x <? b)).
+Proof.
+  intros signed e x b bound Hx Rx Fb Hb Rb. pose proof W_pos. pose proof HALF_pos.
+  destruct signed; unfold vidx_check, idx_value.
+  - vstep1. rewrite Hx. vstep1. rewrite Hb. vstep1. rewrite Hx. vstep1.
+    change (wrap 0) with 0. unfold ev1, ev2, w_iszero, w_or, w_slt, w_lt. replace (to_signed 0) with 0 by reflexivity.
+    unfold to_signed, b2z. cmp; cbn; try reflexivity; lia.
+  - vstep1. rewrite Hb. vstep1. rewrite Hx. vstep1.
+    change (wrap 0) with 0. unfold ev1, ev2, w_iszero, w_or, w_lt, b2z. cmp; cbn; try reflexivity; lia.
+Qed.
+
+Lemma add_wrap_cases : forall s l, 0 <= s < W -> 0 <= l < W ->
+  (s + l) mod W = if s + l <? W then s + l else s + l - W.
+Proof.
+  intros s l Rs Rl. pose proof W_pos. destruct (Z.ltb_spec (s + l) W).
+  - apply Z.mod_small. lia.
+  - rewrite <- (Z.mod_small (s + l - W) W) by lia. replace (s + l - W) with (s + l + (-1) * W) by lia.
+    rewrite Z.mod_add by lia. reflexivity.
+Qed.
+
+Theorem venom_slice_bounds_iff_l : forall e s l n,
+  lookup e "p0" = Some s -> lookup e "p1" = Some l -> lookup e "p2" = Some n ->
+  0 <= s < W -> 0 <= l < W -> 0 <= n < W ->
+  vpass (vsl e vslice_check) = Some (s + l <=? n).
+Proof.
+  intros e s l n Hs Hl Hn Rs Rl Rn. pose proof W_pos. unfold vslice_check.
+  vstep1. rewrite Hs, Hl. vstep1. rewrite Hs. vstep1. rewrite Hn. vstep1.
+  unfold ev1, ev2, w_add, wrap. rewrite (add_wrap_cases s l Rs Rl).
+  unfold w_iszero, w_or, w_lt, w_gt, b2z. cmp; cbn; try reflexivity; lia.
+Qed.
+
+Theorem venom_extract32_bounds_iff_l : forall e p s n,
+  lookup e "p0" = Some p -> lookup e "p1" = Some s -> lookup e "ld0" = Some n ->
+  0 <= s < W -> 0 <= n < W ->
+  vpass (vsl e vextract32_check) = Some (s + 32 <=? n).
+Proof.
+  intros e p s n Hp Hs Hn Rs Rn. pose proof W_pos. unfold vextract32_check.
+  vstep1. rewrite Hp. vstep1. rewrite Hs. vstep1. rewrite Hs. vstep1. rewrite Hn. vstep1.
+  change (wrap 32) with 32. unfold ev1, ev2, w_add, wrap. rewrite (add_wrap_cases s 32 Rs ltac:(lia)).
+  unfold w_iszero, w_or, w_lt, w_gt, b2z. cmp; cbn; try reflexivity; lia.
+Qed.
+
+Theorem venom_pop_nonempty_l : forall e n, lookup e "ld0" = Some n -> 0 <= n < W ->
+  vpass (vsl e vpop_check) = Some (0 <? n).
+Proof.
+  intros e n Hn Rn. unfold vpop_check. vstep1. rewrite Hn. vstep1.
+  unfold ev1, w_iszero, b2z. cmp; cbn; try reflexivity; lia.
+Qed.
+
+Theorem venom_append_within_bound_l : forall e n count, lookup e "ld0" = Some n -> 0 <= n < W -> 0 <= count < W ->
+  vpass (vsl e (vappend_check count)) = Some (n <? count).
+Proof.
+  intros e n count Hn Rn Rc. pose proof W_pos. unfold vappend_check. vstep1. rewrite Hn. vstep1.
+  unfold wrap. rewrite Z.mod_small by lia. unfold ev2, w_lt, b2z. cmp; cbn; try reflexivity; lia.
 Qed.
